@@ -62,6 +62,9 @@ func newWorld(root string, r *Record) *world {
 		w.deps[i] = append([]int{}, r.Deps[i]...)
 		w.untracked[i] = r.Untracked[i]
 		w.invalid[i] = r.InvalidSelf[i]
+		if i < len(r.SelfSkip) {
+			w.selfSkip[i] = r.SelfSkip[i]
+		}
 	}
 	w.publish()
 	return w
